@@ -1405,6 +1405,143 @@ def stateful_sequences(R: Run, geom, GeoBox, GeoboxTiles, Affine):
         sequence_vs_fresh(R, mk, calls, {"spec": spec, "A": aff_s(A), "ospec": ospec, "B": aff_s(B)}, "GeoboxTiles")
 
 
+
+# ------------------------------------------------------------------ pixel size tiny against the coordinate magnitude
+HIGHRES = [
+    # (crs, (x range), (y range), pixel sizes, other CRS for foreign queries / partner rasters)
+    ("EPSG:32755", (2e5, 8e5), (1e6, 9e6), (0.01, 0.05, 0.1, 0.25, 1.0), "EPSG:4326"),
+    ("EPSG:32633", (2e5, 8e5), (1e6, 9e6), (0.01, 0.1, 0.5, 1.0), "EPSG:4326"),
+    ("EPSG:3577", (-1.8e6, 1.8e6), (-4.5e6, -1.2e6), (0.02, 0.1, 1.0), "EPSG:4283"),
+    ("EPSG:3857", (1.2e7, 1.7e7), (-5e6, 7e6), (0.05, 0.1, 1.0), "EPSG:4326"),
+    ("EPSG:4326", (100.0, 170.0), (-65.0, 65.0), (1e-7, 1e-6, 1e-5), "EPSG:3857"),
+    ("EPSG:4283", (112.0, 154.0), (-44.0, -10.0), (1e-7, 1e-6, 1e-5), "EPSG:3577"),
+    ("EPSG:4326", (-170.0, -60.0), (15.0, 70.0), (1e-6, 1e-5), "EPSG:3857"),
+]
+
+
+def highres_stream(R: Run, geom, GeoBox, GeoboxTiles, Affine):
+    """Grids whose pixel (1 cm .. 1 m at UTM-size coordinates, 1e-7 .. 1e-5 degree at lon/lat) is tiny against the
+    magnitude of the world coordinates: any detour of a world coordinate through float32 (spacing 0.5 m at 6e6 m, 1.5e-5
+    at 150 degrees) moves it by many pixels.  Queries (geometry, CRS bounding box, geometry in another CRS) whose edges
+    reach 0.5 - 5 px into a tile, and dependency graphs with slightly rotated / other-CRS partners; the reference is
+    computed in pixel space from float64 / exact rationals with fresh pyproj transformers: must-tiles (overlap >= 0.1 px^2)
+    have to be returned, nothing farther than 0.05 px from the query may be."""
+    import shapely
+    import shapely.geometry as sg
+    from pyproj import CRS as PCRS
+    from pyproj import Transformer
+
+    rng = R.rng
+    BoundingBox = geom.BoundingBox
+    for cfg in HIGHRES:
+        crs, xr, yr, sizes, ocrs = cfg
+        for _rep in range(R.pick(1, 4)):
+            res = rng.choice(sizes)
+            N = rng.choice([4000, 3000, 2400])
+            tile = rng.choice([200, 250, 300])
+            E0 = round(rng.uniform(*xr), rng.choice([0, 1, 2, 7]))
+            N0 = round(rng.uniform(*yr), rng.choice([0, 1, 2, 7]))
+            A = Affine(res, 0, E0, 0, -res, N0)
+            gb = GeoBox((N, N), A, crs)
+            if rng.random() < 0.3:
+                k = N // tile
+                ch = tuple([tile] * (k - 1) + [N - tile * (k - 1)])
+                gbt = GeoboxTiles(gb, (ch, ch))
+            else:
+                gbt = GeoboxTiles(gb, (tile, tile))
+            rects = tile_rects(gbt)
+            keys = list(rects)
+            boxes = shapely.box(np.array([rects[k_][2] for k_ in keys], dtype="float64"), np.array([rects[k_][0] for k_ in keys], dtype="float64"),
+                                np.array([rects[k_][3] for k_ in keys], dtype="float64"), np.array([rects[k_][1] for k_ in keys], dtype="float64"))
+            T = -(-N // tile)
+            to_o = Transformer.from_crs(PCRS.from_user_input(crs), PCRS.from_user_input(ocrs), always_xy=True)
+            from_o = Transformer.from_crs(PCRS.from_user_input(ocrs), PCRS.from_user_input(crs), always_xy=True)
+            fa, fc, fe, ff = Fraction(A.a), Fraction(A.c), Fraction(A.e), Fraction(A.f)
+
+            def edge(lo):
+                """a pixel coordinate 0.5 .. 5 px on either side of a tile boundary"""
+                b_ = rng.randint(1, T - 1) * tile
+                reach = rng.choice([0.5, 1, 2.4, 5, 0.7, 3.3])
+                return b_ - reach if lo else b_ + reach
+
+            for _q in range(R.pick(8, 30)):
+                px0, px1 = sorted((edge(rng.random() < 0.5), edge(rng.random() < 0.5)))
+                py0, py1 = sorted((edge(rng.random() < 0.5), edge(rng.random() < 0.5)))
+                if px1 - px0 < 8 or py1 - py0 < 8:
+                    continue
+                wcorners = [A * p_ for p_ in ((px0, py0), (px1, py0), (px1, py1), (px0, py1))]
+                form = rng.choice(["geometry", "crs-bbox", "foreign-geometry", "foreign-bbox"])
+                if form == "geometry":
+                    q, verts, vcrs = geom.Geometry(sg.Polygon(wcorners), crs), wcorners, crs
+                elif form == "crs-bbox":
+                    xs_, ys_ = [p_[0] for p_ in wcorners], [p_[1] for p_ in wcorners]
+                    bb = (min(xs_), min(ys_), max(xs_), max(ys_))
+                    q, vcrs = BoundingBox(*bb, crs), crs
+                    verts = [(bb[0], bb[1]), (bb[0], bb[3]), (bb[2], bb[3]), (bb[2], bb[1])]
+                else:
+                    fo = [to_o.transform(x, y) for x, y in wcorners]
+                    if form == "foreign-geometry":
+                        q, verts, vcrs = geom.Geometry(sg.Polygon(fo), ocrs), fo, ocrs
+                    else:
+                        xs_, ys_ = [p_[0] for p_ in fo], [p_[1] for p_ in fo]
+                        bb = (min(xs_), min(ys_), max(xs_), max(ys_))
+                        q, vcrs = BoundingBox(*bb, ocrs), ocrs
+                        verts = [(bb[0], bb[1]), (bb[0], bb[3]), (bb[2], bb[3]), (bb[2], bb[1])]
+                # the query's vertices in pixel space: fresh pyproj (if foreign), then exact rationals
+                wv = verts if vcrs == crs else [from_o.transform(x, y) for x, y in verts]
+                pv = [(float((Fraction(x) - fc) / fa), float((Fraction(y) - ff) / fe)) for x, y in wv]
+                qpix = sg.Polygon(pv)
+                if not qpix.is_valid or qpix.area == 0:
+                    continue
+                case = {"raster": crs, "res": res, "origin": [E0, N0], "N": N, "tile": tile, "form": form,
+                        "query_crs": vcrs, "query_vertices": [[repr(float(x)), repr(float(y))] for x, y in verts],
+                        "query_in_pixels": [[round(x, 3), round(y, 3)] for x, y in pv]}
+                got = guarded(lambda: set(gbt.tiles(q)))
+                if isinstance(got, str):
+                    R.oracle(False, "tiles-query-raises", case, f"tiles() raised {got}", sig="highres-raises")
+                    continue
+                area = shapely.area(shapely.intersection(boxes, qpix))
+                dist = shapely.distance(boxes, qpix)
+                must = {keys[j] for j in np.nonzero(area >= 0.1)[0]}
+                may = {keys[j] for j in np.nonzero(dist <= 0.05)[0]}
+                R.oracle(must <= got, "tiles-geom-misses-tile", case,
+                         f"tiles {sorted(got)} miss {sorted(must - got)} (overlap in px^2: "
+                         f"{[round(float(area[keys.index(k_)]), 2) for k_ in sorted(must - got)][:5]})", sig=f"highres|miss|{form}")
+                R.oracle(got <= may, "tiles-geom-returns-disjoint-tile", case,
+                         f"tiles {sorted(got - may)} are more than 0.05 px away from the query", sig=f"highres|extra|{form}")
+            # dependency graphs: a slightly rotated copy shifted by a few pixels (general path, same CRS) ...
+            n2, t2 = 1600, 400
+            sub = GeoboxTiles(GeoBox((n2, n2), A, crs), (t2, t2))
+            ang = rng.choice([0.01, 0.05, -0.02])
+            shift = (rng.choice([2.4, -3.1, 0.6, 7.5]), rng.choice([2.4, -1.3, 4.9]))
+            Dm = A * Affine.translation(*shift) * Affine.rotation(ang)
+            rot = GeoboxTiles(GeoBox((n2, n2), Dm, crs), (rng.choice([400, 320]), rng.choice([400, 500])))
+            for dst, src in ((rot, sub), (sub, rot)):
+                case = {"crs": crs, "res": res, "dst_aff": aff_s(dst.base.affine), "src_aff": aff_s(src.base.affine),
+                        "dst_tiles": str(dst.chunks), "src_tiles": str(src.chunks), "angle": ang, "shift_px": list(shift)}
+                deps = guarded(lambda: dst.grid_intersect(src))
+                if isinstance(deps, str):
+                    R.oracle(False, "grid-intersect-raises", case, deps, sig="highres-deps-raises")
+                    continue
+                need = brute_deps(dst, src, 0.5)
+                miss = [(d_, s_) for d_, ss in need.items() for s_ in ss if s_ not in deps.get(d_, [])]
+                R.oracle(not miss, "grid-intersect-misses-dependency", case,
+                         f"{len(miss)} of {sum(map(len, need.values()))} tile pairs overlapping by more than 0.5 px^2 are missing: {miss[:6]}",
+                         sig="highres|deps-rotated")
+            # ... and a partner in another CRS
+            oc = [to_o.transform(*(A * p_)) for p_ in ((0, 0), (n2, 0), (n2, n2), (0, n2))]
+            ox0, ox1 = min(p_[0] for p_ in oc), max(p_[0] for p_ in oc)
+            oy0, oy1 = min(p_[1] for p_ in oc), max(p_[1] for p_ in oc)
+            if all(map(math.isfinite, (ox0, ox1, oy0, oy1))) and ox1 > ox0 and oy1 > oy0:
+                ores = max(ox1 - ox0, oy1 - oy0) / 1500
+                other = GeoboxTiles(GeoBox.from_bbox(BoundingBox(ox0, oy0, ox1, oy1, ocrs), resolution=ores), (390, 410))
+                for dst, src in ((other, sub), (sub, other)):
+                    dense_dep_oracle(R, dst, src, {"dst": str(dst.base.crs), "src": str(src.base.crs), "res": res,
+                                                   "dst_aff": aff_s(dst.base.affine), "dst_shape": list(dst.base.shape),
+                                                   "src_aff": aff_s(src.base.affine), "src_shape": list(src.base.shape)},
+                                     sig="highres|deps-cross", k=4)
+
+
 def _maybe_int_exact(x: Fraction, tol: Fraction):
     t = Fraction(math.trunc(x))
     part = x - t
@@ -1499,6 +1636,7 @@ def run(R: Run):
     stream(snap_cases, R, Affine)
     stream(grid_pairs, R, geom, GeoBox, GeoboxTiles, Affine)
     stream(stateful_sequences, R, geom, GeoBox, GeoboxTiles, Affine)
+    stream(highres_stream, R, geom, GeoBox, GeoboxTiles, Affine)
     # from here on the process has seen several hundred CRSs (long-lived service); more churn is interleaved
     stream(crs_churn_stream, R, geom, GeoBox, GeoboxTiles, Affine)
     stream(crs_kinds_stream, R, geom, GeoBox, GeoboxTiles, Affine)
